@@ -145,7 +145,10 @@ func (act *activation) call(a *alt, ins ssa.Instruction, c *ssa.CallCommon, defe
 	var fvs []term.ID
 	if c.IsInvoke() {
 		key = "iface:" + ifaceKey(c)
-		if !e.Seams(load.ObjKey(c.Method)) {
+		// only interfaces declared by ibc-go are resolved to their (in-scope)
+		// implementers: an interface of a dependency has implementers we do not see
+		ownIface := c.Method.Pkg() != nil && strings.HasPrefix(c.Method.Pkg().Path(), "github.com/cosmos/ibc-go/")
+		if !e.Seams(load.ObjKey(c.Method)) && ownIface {
 			if it, ok := c.Value.Type().Underlying().(*types.Interface); ok {
 				objs := map[types.Object]bool{}
 				var one *types.Func
@@ -217,6 +220,13 @@ func (act *activation) call(a *alt, ins ssa.Instruction, c *ssa.CallCommon, defe
 			}
 		}
 		var ct term.ID
+		if v, ok := e.foldPure(key, targs); ok && pure {
+			// comparison of two constant byte strings: keeps infeasible paths out
+			if resultVal != nil {
+				a.frame[resultVal] = v
+			}
+			return []*alt{a}
+		}
 		if pure {
 			ct = T.Mk("call:"+key, targs...)
 		} else {
@@ -263,7 +273,16 @@ func (act *activation) call(a *alt, ins ssa.Instruction, c *ssa.CallCommon, defe
 	// a result on which the return alternatives disagree is referred to by the
 	// call itself (structured term), so that later merges keep a usable name
 	disagree := make([]bool, nres)
-	for j := 0; j < nres; j++ {
+	// a small pure helper (a case split returning one of a few values, e.g. a
+	// prefix splitter) keeps its actual values: the caller's branches on them
+	// can then be decided per case
+	smallPure := len(res.rets) <= 3 && e.KeepValues != nil && e.KeepValues(key)
+	for _, r := range res.rets {
+		if r.impure {
+			smallPure = false
+		}
+	}
+	for j := 0; j < nres && !smallPure; j++ {
 		var first term.ID
 		for _, r := range res.rets {
 			var rt term.ID
@@ -421,6 +440,43 @@ func (e *Engine) opaqueWithin(t term.ID, args, fvs []term.ID, cells map[int32]ce
 		}
 	}
 	return true
+}
+
+// constBytes: the term is a constant byte string (nil, "lit", conv:bytes("lit")).
+func (e *Engine) constBytes(t term.ID) (string, bool) {
+	if t == e.nilT {
+		return "", true
+	}
+	tm := e.T.Get(t)
+	if tm.Op == "conv:bytes" && len(tm.Args) == 1 {
+		tm = e.T.Get(tm.Args[0])
+	}
+	if len(tm.Op) >= 2 && tm.Op[0] == '"' {
+		if s, err := strconv.Unquote(tm.Op); err == nil {
+			return s, true
+		}
+	}
+	return "", false
+}
+
+// foldPure evaluates bytes.Equal / bytes.HasPrefix on two constant byte strings.
+func (e *Engine) foldPure(key string, args []term.ID) (term.ID, bool) {
+	if (key != "bytes.Equal" && key != "bytes.HasPrefix") || len(args) != 2 {
+		return 0, false
+	}
+	x, ok1 := e.constBytes(args[0])
+	y, ok2 := e.constBytes(args[1])
+	if !ok1 || !ok2 {
+		return 0, false
+	}
+	r := x == y
+	if key == "bytes.HasPrefix" {
+		r = strings.HasPrefix(x, y)
+	}
+	if r {
+		return e.trueT, true
+	}
+	return e.falseT, true
 }
 
 // snapshot replaces pointers to tracked locals inside a value by references to
